@@ -33,15 +33,40 @@ type Walker struct {
 	// two plan-time readings of an occurrence on an abstract type the planner produced: the
 	// abstract type itself, or -- when it rewrote the abstract selection per possible type -- the
 	// concrete type.
-	PlanIdx map[string]map[string]bool
+	PlanIdx map[string][]PlanEntry
+	// Ambiguous is set by Reference when a plan-time coordinate depends on the runtime types of enclosing
+	// objects (ParentOnTypeNames), which the static rewriting cannot see
+	Ambiguous bool
 }
 
 // CoordOf is the plan-time coordinate (ExactParentTypeName, field) of an occurrence of field f
 // whose static enclosing type is enc, at response key path kp, for an object of runtime type rt.
-func (w *Walker) CoordOf(kp, enc, rt, f string) string {
+func (w *Walker) CoordOf(kp, enc string, rts []string, f string) string {
+	if et := w.S.Type(enc); et != nil && et.Kind != fedlab.KObject && w.PlanIdx != nil && len(rts) > 0 {
+		want := rts[0] + "." + f
+		for i := range w.PlanIdx[kp] {
+			if e := &w.PlanIdx[kp][i]; e.Coord == want && e.Applies(rts) {
+				return want
+			}
+		}
+	}
+	return enc + "." + f
+}
+
+// coordOfStatic is CoordOf when only the runtime type t of the enclosing object is known; it flags the
+// walker as Ambiguous when the answer depends on the types of objects further up.
+func (w *Walker) coordOfStatic(kp, enc, t, f string) string {
 	if et := w.S.Type(enc); et != nil && et.Kind != fedlab.KObject && w.PlanIdx != nil {
-		if w.PlanIdx[kp][rt+"."+f] {
-			return rt + "." + f
+		want := t + "." + f
+		for i := range w.PlanIdx[kp] {
+			e := &w.PlanIdx[kp][i]
+			if e.Coord != want || !e.Applies([]string{t}) {
+				continue
+			}
+			if e.Far {
+				w.Ambiguous = true
+			}
+			return want
 		}
 	}
 	return enc + "." + f
@@ -273,12 +298,13 @@ func collectStrings(j *fedlab.J, out map[string]bool) {
 func (w *Walker) Analyze(shadow *fedlab.J, mode Mode, d Decisions) *Analysis {
 	a := &Analysis{Seen: map[string]bool{}, Domain: map[string]bool{}, underDenied: map[string]bool{}}
 	legit := map[string]bool{}
-	var walkObj func(obj *fedlab.J, rt string, scopes []Scope, path []PathEl, depth int)
-	var walkVal func(v *fedlab.J, g *Group, rt string, path []PathEl, depth int)
-	walkObj = func(obj *fedlab.J, rt string, scopes []Scope, path []PathEl, depth int) {
+	var walkObj func(obj *fedlab.J, rts []string, scopes []Scope, path []PathEl, depth int)
+	var walkVal func(v *fedlab.J, g *Group, rts []string, path []PathEl, depth int)
+	walkObj = func(obj *fedlab.J, rts []string, scopes []Scope, path []PathEl, depth int) {
 		if obj == nil || obj.Kind != fedlab.JObj || depth > 64 {
 			return
 		}
+		rt := rts[0]
 		td := w.S.Type(rt)
 		for _, g := range w.Collect(scopes, rt) {
 			a.Positions++
@@ -293,7 +319,7 @@ func (w *Walker) Analyze(shadow *fedlab.J, mode Mode, d Decisions) *Analysis {
 			kp := keyPathOf(p)
 			firstTF := ""
 			for _, o := range g.Occs {
-				tf := w.CoordOf(kp, o.Enc, rt, g.Name)
+				tf := w.CoordOf(kp, o.Enc, rts, g.Name)
 				if firstTF == "" {
 					firstTF = tf
 				} else if tf != firstTF && (w.P[tf] || w.P[firstTF]) {
@@ -325,7 +351,7 @@ func (w *Walker) Analyze(shadow *fedlab.J, mode Mode, d Decisions) *Analysis {
 					a.TwoPathProt++
 				}
 				for _, o := range g.Occs {
-					if et := w.S.Type(o.Enc); et != nil && et.Kind != fedlab.KObject && w.P[w.CoordOf(kp, o.Enc, rt, g.Name)] {
+					if et := w.S.Type(o.Enc); et != nil && et.Kind != fedlab.KObject && w.P[w.CoordOf(kp, o.Enc, rts, g.Name)] {
 						a.AbstractProt++
 						break
 					}
@@ -354,17 +380,17 @@ func (w *Walker) Analyze(shadow *fedlab.J, mode Mode, d Decisions) *Analysis {
 				collectStrings(v, a.underDenied)
 				continue
 			}
-			walkVal(v, g, rt, p, depth)
+			walkVal(v, g, rts, p, depth)
 		}
 	}
-	walkVal = func(v *fedlab.J, g *Group, rt string, path []PathEl, depth int) {
+	walkVal = func(v *fedlab.J, g *Group, rts []string, path []PathEl, depth int) {
 		if v == nil {
 			return
 		}
 		switch v.Kind {
 		case fedlab.JArr:
 			for i, it := range v.Items {
-				walkVal(it, g, rt, append(append([]PathEl(nil), path...), PathEl{Index: i, IsIdx: true}), depth+1)
+				walkVal(it, g, rts, append(append([]PathEl(nil), path...), PathEl{Index: i, IsIdx: true}), depth+1)
 			}
 		case fedlab.JObj:
 			tn := v.Get(TypenameAlias)
@@ -383,12 +409,12 @@ func (w *Walker) Analyze(shadow *fedlab.J, mode Mode, d Decisions) *Analysis {
 				}
 				scopes = append(scopes, Scope{o.Sel.Sels, fd.Type.Base()})
 			}
-			walkObj(v, tn.Raw, scopes, path, depth+1)
+			walkObj(v, append([]string{tn.Raw}, rts...), scopes, path, depth+1)
 		default:
 			collectStrings(v, legit)
 		}
 	}
-	walkObj(shadow, w.RootType(), []Scope{{w.Op.Sels, w.RootType()}}, nil, 0)
+	walkObj(shadow, []string{w.RootType()}, []Scope{{w.Op.Sels, w.RootType()}}, nil, 0)
 	for s := range legit {
 		a.legit = append(a.legit, s)
 	}
@@ -463,6 +489,7 @@ func (w *Walker) inlineSpreads(sels []*fedlab.Sel, depth int) []*fedlab.Sel {
 // (post-fetch mode: the coordinate is the runtime type; pre-fetch mode: the planner rewrote the
 // abstract selection per type) is split into one inline fragment per possible type.
 func (w *Walker) Reference(mode Mode, d Decisions) *Op {
+	w.Ambiguous = false
 	c := &Op{Kind: w.Op.Kind, Operation: &fedlab.Operation{Name: w.Op.Name, Vars: w.Op.Vars, Variables: w.Op.Variables}}
 	var rw func(sels []*fedlab.Sel, enc, kp string, depth int) []*fedlab.Sel
 	rw = func(sels []*fedlab.Sel, enc, kp string, depth int) []*fedlab.Sel {
@@ -506,7 +533,7 @@ func (w *Walker) Reference(mode Mode, d Decisions) *Op {
 				denied := map[string]bool{}
 				nd := 0
 				for _, t := range types {
-					tf := w.CoordOf(ckp, enc, t, s.Name)
+					tf := w.coordOfStatic(ckp, enc, t, s.Name)
 					if !w.P[tf] {
 						continue
 					}
